@@ -488,7 +488,7 @@ func (e *ErrPlan) build(ctx context.Context) error {
 		ce = connect.NewError(connect.Code(e.Code), errors.New(e.Msg))
 	}
 	for _, d := range e.Details {
-		a, err := anypb.New(d.message())
+		a, err := d.any()
 		if err == nil {
 			ce.AddDetail(a)
 		}
@@ -513,6 +513,17 @@ func (e *ErrPlan) build(ctx context.Context) error {
 		e.built = out
 	}
 	return out
+}
+
+// any is the detail as the handler attaches it. Kind 4 is an Any whose
+// message type is not linked into this binary - what a gateway holds when it
+// passes on the details of an upstream error.
+func (d DetailPlan) any() (*anypb.Any, error) {
+	if d.Kind == 4 {
+		v := protowire.AppendString(protowire.AppendTag(nil, 1, protowire.BytesType), fmt.Sprintf("upstream %x", d.Data))
+		return &anypb.Any{TypeUrl: "type.googleapis.com/sim.upstream.v1.NotLinkedHere", Value: v}, nil
+	}
+	return anypb.New(d.message())
 }
 
 func (d DetailPlan) message() proto.Message {
